@@ -33,6 +33,7 @@ from .terms import (
     T_not,
     T_pow,
     T_sub,
+    T_sum,
     T_truediv,
     elem as raw_elem,
     is_num,
@@ -1039,13 +1040,13 @@ class Interp:
             i = lx[1]
             if lx[2] != ly[2] and "ax" not in (lx[2], ly[2]):
                 raise Unsupported(f"dot over mismatched axes {lx[2]} / {ly[2]}")
-            return ("red", "sum", i, lx[2], self.arith("Mult", lx[3], self.elem(ly, i)))
+            return T_sum(i, lx[2], self.arith("Mult", lx[3], self.elem(ly, i)))
         if lx is not None and ly is None:
             i = lx[1]
-            return ("red", "sum", i, lx[2], self.arith("Mult", lx[3], self.elem(y, i)))
+            return T_sum(i, lx[2], self.arith("Mult", lx[3], self.elem(y, i)))
         if ly is not None and lx is None:
             i = ly[1]
-            return ("red", "sum", i, ly[2], self.arith("Mult", self.elem(x, i), ly[3]))
+            return T_sum(i, ly[2], self.arith("Mult", self.elem(x, i), ly[3]))
         return ("app", "dot", (x, y))
 
     def reduce(self, op, x, axis=NONE):
@@ -1059,6 +1060,8 @@ class Interp:
             body = lx[3]
             if body[0] == "lam" or self.axes_of(body):
                 body = self.reduce(op, body, NONE)  # reduce over all axes
+            if op == "sum":
+                return T_sum(lx[1], lx[2], body)
             return ("red", op, lx[1], lx[2], body)
         if is_num(axis):
             a = int(axis[1])
@@ -1077,6 +1080,8 @@ class Interp:
         lx = x if x[0] == "lam" else self.eta(x)
         if lx is None:
             return ("app", op, (x, ("kw", "axis", K(0))))
+        if op == "sum":
+            return T_sum(lx[1], lx[2], lx[3])
         return ("red", op, lx[1], lx[2], lx[3])
 
     def reshape(self, recv, dims):
